@@ -31,6 +31,7 @@ package pppoe
 //@ func (p *LCPPacket) Serialize
 //@   modifies nothing
 //@   ensures len(result) == 4 + len(p.Data) && fresh(result)
+//@   ensures result[0] == p.Code && result[1] == p.Identifier
 
 //@ func SerializeLCPOptions
 //@   modifies nothing
@@ -153,3 +154,200 @@ package pppoe
 //@   ghost removedID mathint = 0 - 1
 //@   modifies *
 //@   ensures lastSession != nil && !old(sameBytes(clientMAC, lastSession.ClientMAC)) ==> removedID == 0 - 1
+
+// ---- lcp.go: LCP option-negotiation automaton (C11) ----
+//
+// Ghost state: gA = "we acknowledged the peer's most recent Configure-Request",
+// gB = "the peer acknowledged our most recent Configure-Request". They are
+// updated only at function exits (ghost_exit) and are protected by mu together
+// with the automaton state. Outgoing packets are observed through the contract
+// of the sendPacket callback, which records the first packet sent by the
+// current activation (code and identifier) in function-local ghost variables.
+
+//@ type LCPStateMachine
+//@   ghost gA bool
+//@   ghost gB bool
+//@   owns mu: state config negotiated restartCount failureCount identifier lastIdentifier gA gB
+//@   owns timerMu: restartTimer
+//@   inv opened: self.state == LCPStateOpened ==> self.gA && self.gB
+//@   inv ackrcvd: self.state == LCPStateAckRcvd ==> self.gB
+//@   inv acksent: self.state == LCPStateAckSent ==> self.gA
+//@   inv range: LCPStateInitial <= self.state && self.state <= LCPStateOpened
+
+//@ functype LCPStateMachine.sendPacket(protocol, data)
+//@   requires len(data) >= 4
+//@   modifies nothing
+//@   sets firstSentCode = ite(sentCount == 0, data[0], firstSentCode)
+//@   sets firstSentID = ite(sentCount == 0, data[1], firstSentID)
+//@   sets sentCount = sentCount + 1
+
+//@ functype LCPStateMachine.onStateChange(oldState, newState)
+//@   modifies nothing
+
+//@ func (lcp *LCPStateMachine) setState
+//@   modifies lcp.state
+//@   ensures lcp.state == newState
+
+//@ func (lcp *LCPStateMachine) initializeRestartCount
+//@   modifies lcp.restartCount
+//@   ensures lcp.restartCount == lcp.config.MaxConfigure
+
+//@ func (lcp *LCPStateMachine) zeroRestartCount
+//@   modifies lcp.restartCount
+//@   ensures lcp.restartCount == 0
+
+//@ func (lcp *LCPStateMachine) startTimer
+//@   modifies lcp.restartTimer
+
+//@ func (lcp *LCPStateMachine) stopTimer
+//@   modifies lcp.restartTimer
+
+//@ func (lcp *LCPStateMachine) sendConfigureRequest
+//@   ghost sentCount mathint = 0
+//@   ghost firstSentCode mathint = 0 - 1
+//@   ghost firstSentID mathint = 0 - 1
+//@   modifies lcp.identifier, lcp.lastIdentifier, lcp.restartCount, lcp.restartTimer
+//@   ghost_exit lcp.gB = false
+//@   ensures lcp.restartCount == old(lcp.restartCount) - 1 || old(lcp.restartCount) == 0 - 9223372036854775808
+//@   ensures firstSentCode == LCPCodeConfigRequest && firstSentID == lcp.lastIdentifier
+//@   sets firstSentCode = ite(sentCount == 0, LCPCodeConfigRequest, firstSentCode)
+//@   sets firstSentID = ite(sentCount == 0, lcp.lastIdentifier, firstSentID)
+//@   sets sentCount = sentCount + 1
+
+//@ func (lcp *LCPStateMachine) sendTerminateRequest
+//@   ghost sentCount mathint = 0
+//@   ghost firstSentCode mathint = 0 - 1
+//@   ghost firstSentID mathint = 0 - 1
+//@   modifies lcp.identifier, lcp.restartCount, lcp.restartTimer
+//@   ensures lcp.restartCount == old(lcp.restartCount) - 1 || old(lcp.restartCount) == 0 - 9223372036854775808
+//@   ensures firstSentCode == LCPCodeTermRequest
+//@   sets firstSentCode = ite(sentCount == 0, LCPCodeTermRequest, firstSentCode)
+//@   sets firstSentID = ite(sentCount == 0, lcp.identifier, firstSentID)
+//@   sets sentCount = sentCount + 1
+
+//@ func (lcp *LCPStateMachine) sendTerminateAck
+//@   ghost sentCount mathint = 0
+//@   ghost firstSentCode mathint = 0 - 1
+//@   ghost firstSentID mathint = 0 - 1
+//@   modifies nothing
+//@   ensures firstSentCode == LCPCodeTermAck && firstSentID == identifier
+//@   sets firstSentCode = ite(sentCount == 0, LCPCodeTermAck, firstSentCode)
+//@   sets firstSentID = ite(sentCount == 0, identifier, firstSentID)
+//@   sets sentCount = sentCount + 1
+
+//@ func (lcp *LCPStateMachine) processConfigureOptions
+//@   modifies nothing
+
+//@ func (lcp *LCPStateMachine) storePeerOptions
+//@   modifies lcp.negotiated
+
+//@ func (lcp *LCPStateMachine) receiveConfigureRequest
+//@   requires pkt != nil && lcp.inv
+//@   ghost sentCount mathint = 0
+//@   ghost firstSentCode mathint = 0 - 1
+//@   ghost firstSentID mathint = 0 - 1
+//@   modifies lcp.state, lcp.negotiated, lcp.restartCount, lcp.identifier, lcp.lastIdentifier, lcp.restartTimer, lcp.gA, lcp.gB
+//@   ghost_exit lcp.gA = ite(err == nil, firstSentCode == LCPCodeConfigAck, old(lcp.gA))
+//@   ensures err == nil ==> firstSentID == pkt.Identifier && (firstSentCode == LCPCodeConfigAck || firstSentCode == LCPCodeConfigNak || firstSentCode == LCPCodeConfigReject)
+//@   ensures err == nil && old(lcp.state) == LCPStateOpened ==> lcp.state != LCPStateOpened
+//@   ensures lcp.state == LCPStateOpened ==> old(lcp.state) == LCPStateAckRcvd && firstSentCode == LCPCodeConfigAck
+//@   ensures err != nil ==> lcp.state == old(lcp.state) && lcp.gA == old(lcp.gA) && lcp.gB == old(lcp.gB)
+//@   ensures lcp.inv
+
+//@ func (lcp *LCPStateMachine) receiveConfigureAck
+//@   requires pkt != nil && lcp.inv
+//@   modifies lcp.state, lcp.restartCount, lcp.identifier, lcp.lastIdentifier, lcp.restartTimer, lcp.gA, lcp.gB
+//@   ghost_exit lcp.gB = ite(pkt.Identifier == old(lcp.lastIdentifier) && (old(lcp.state) == LCPStateReqSent || old(lcp.state) == LCPStateAckSent), true, lcp.gB)
+//@   ensures pkt.Identifier != old(lcp.lastIdentifier) ==> lcp.state == old(lcp.state) && lcp.gA == old(lcp.gA) && lcp.gB == old(lcp.gB)
+//@   ensures old(lcp.state) == LCPStateOpened && pkt.Identifier == old(lcp.lastIdentifier) ==> lcp.state != LCPStateOpened
+//@   ensures lcp.state == LCPStateOpened && old(lcp.state) != LCPStateOpened ==> old(lcp.state) == LCPStateAckSent && pkt.Identifier == old(lcp.lastIdentifier)
+//@   ensures lcp.inv
+
+//@ func (lcp *LCPStateMachine) receiveConfigureNak
+//@   requires pkt != nil && lcp.inv
+//@   modifies lcp.state, lcp.config, lcp.negotiated, lcp.failureCount, lcp.restartCount, lcp.identifier, lcp.lastIdentifier, lcp.restartTimer, lcp.gB
+//@   ensures old(lcp.state) == LCPStateOpened && pkt.Identifier == old(lcp.lastIdentifier) && err == nil ==> lcp.state != LCPStateOpened
+//@   ensures lcp.state == LCPStateOpened ==> old(lcp.state) == LCPStateOpened
+//@   ensures lcp.inv
+
+//@ func (lcp *LCPStateMachine) receiveConfigureReject
+//@   requires pkt != nil && lcp.inv
+//@   modifies lcp.state, lcp.config, lcp.restartCount, lcp.identifier, lcp.lastIdentifier, lcp.restartTimer, lcp.gB
+//@   ensures old(lcp.state) == LCPStateOpened && pkt.Identifier == old(lcp.lastIdentifier) && err == nil ==> lcp.state != LCPStateOpened
+//@   ensures lcp.state == LCPStateOpened ==> old(lcp.state) == LCPStateOpened
+//@   ensures lcp.inv
+
+//@ func (lcp *LCPStateMachine) receiveTerminateRequest
+//@   requires pkt != nil && lcp.inv
+//@   ghost sentCount mathint = 0
+//@   ghost firstSentCode mathint = 0 - 1
+//@   ghost firstSentID mathint = 0 - 1
+//@   modifies lcp.state, lcp.restartCount, lcp.restartTimer
+//@   ensures lcp.state != LCPStateOpened
+//@   ensures old(lcp.state) != LCPStateInitial && old(lcp.state) != LCPStateStarting ==> firstSentCode == LCPCodeTermAck && firstSentID == pkt.Identifier
+//@   ensures lcp.inv
+
+//@ func (lcp *LCPStateMachine) receiveTerminateAck
+//@   requires pkt != nil && lcp.inv
+//@   modifies lcp.state, lcp.restartCount, lcp.identifier, lcp.lastIdentifier, lcp.restartTimer, lcp.gB
+//@   ensures lcp.state != LCPStateOpened
+//@   ensures lcp.inv
+
+//@ func (lcp *LCPStateMachine) closeInternal
+//@   requires lcp.inv
+//@   modifies lcp.state, lcp.restartCount, lcp.identifier, lcp.restartTimer
+//@   ensures lcp.state != LCPStateOpened
+//@   ensures lcp.inv
+
+//@ func (lcp *LCPStateMachine) Down
+//@   ensures lcp.state != LCPStateOpened
+
+//@ func (lcp *LCPStateMachine) Close
+//@   ensures lcp.state != LCPStateOpened
+
+//@ func (lcp *LCPStateMachine) Up
+//@   ensures lcp.state == LCPStateOpened ==> locked(lcp.state) == LCPStateOpened
+
+//@ func (lcp *LCPStateMachine) Open
+//@   ensures lcp.state == LCPStateOpened ==> locked(lcp.state) == LCPStateOpened
+
+//@ func (lcp *LCPStateMachine) timeout
+//@   ensures locked(lcp.restartCount) > 0 && (locked(lcp.state) == LCPStateReqSent || locked(lcp.state) == LCPStateAckRcvd || locked(lcp.state) == LCPStateAckSent || locked(lcp.state) == LCPStateClosing || locked(lcp.state) == LCPStateStopping) ==> lcp.restartCount == locked(lcp.restartCount) - 1 && lcp.state == locked(lcp.state)
+//@   ensures locked(lcp.restartCount) <= 0 ==> lcp.state != LCPStateReqSent && lcp.state != LCPStateAckRcvd && lcp.state != LCPStateAckSent && lcp.state != LCPStateClosing && lcp.state != LCPStateStopping
+//@   ensures lcp.state == LCPStateOpened ==> locked(lcp.state) == LCPStateOpened
+
+//@ func (lcp *LCPStateMachine) receiveCodeReject
+//@   requires pkt != nil && lcp.inv
+//@   modifies lcp.state, lcp.restartCount, lcp.identifier, lcp.restartTimer
+//@   ensures lcp.state == LCPStateOpened ==> old(lcp.state) == LCPStateOpened
+//@   ensures lcp.inv
+
+//@ func (lcp *LCPStateMachine) receiveProtocolReject
+//@   requires pkt != nil && lcp.inv
+//@   modifies lcp.state, lcp.restartCount, lcp.identifier, lcp.restartTimer
+//@   ensures lcp.state == LCPStateOpened ==> old(lcp.state) == LCPStateOpened
+//@   ensures lcp.inv
+
+//@ func (lcp *LCPStateMachine) receiveEchoRequest
+//@   requires pkt != nil && lcp.inv
+//@   modifies nothing
+
+//@ func (lcp *LCPStateMachine) receiveEchoReply
+//@   requires pkt != nil
+//@   modifies nothing
+
+//@ func (lcp *LCPStateMachine) sendCodeReject
+//@   requires rejected != nil
+//@   modifies lcp.identifier
+
+//@ func (lcp *LCPStateMachine) ReceivePacket
+//@   ensures lcp.state == LCPStateOpened && locked(lcp.state) != LCPStateOpened ==> lcp.gA && lcp.gB
+
+// Ownership: a session keeps its own copy of the client MAC. The receive loop
+// hands handlers slices of its single reused frame buffer, so a stored alias
+// would make every later "source MAC == session owner" comparison vacuous (C04).
+
+//@ func NewSession
+//@   modifies nothing
+//@   ensures err == nil ==> result != nil && fresh(result) && fresh(result.ClientMAC) && sameBytes(result.ClientMAC, clientMAC)
+//@   ensures err == nil ==> result.ID == id && !result.Authenticated && result.State == StateDiscovery && result.ClientIP == nil
